@@ -101,6 +101,15 @@ CHECKS["C18"] = {
     "design_ref": "§7 C18",
 }
 
+CHECKS["C19"] = {
+    "category": "model_checking",
+    "technique": "TLA+ FetchQueue.tla checked by TLC (safety + NoLostWakeup liveness); TLC trace validation (TraceFetch.tla) of a seeded driver of the real gossip::fetch::Queue",
+    "text": "Every interleaving of request/cancel/announce/accept/complete/fail of the bounded model; on the code every hand-out must be an enabled spec "
+            "action (announced, lowest, once), the pending set must equal the spec's at every quiescent point, and no idle peer may be left unserved.",
+    "note": "Single-threaded runtime with quiescence between commands; real multi-threaded interleavings are not controlled. One live requester per block.",
+    "design_ref": "§7 C19",
+}
+
 NOT_YET = "check not built yet (construction in progress; see DESIGN.md §11 build order)"
 NA_REASONS = {}
 
